@@ -145,11 +145,11 @@ def run(ctx: vlib.Ctx):
         # S part 2: order independence against a reference execution in a fresh executor
         refs = {}
 
-        def reference(acts, logd):
-            key = (tuple(acts), logd)
+        def reference(acts, logd, fsiso=False):
+            key = (tuple(acts), logd, fsiso)
             if key not in refs:
                 sess.new_executor()
-                sess.reset({"logd": logd, "items": []})
+                sess.reset({"logd": logd, "fsiso": fsiso, "items": []})
                 refs[key] = sess.execute(list(acts))
             return refs[key]
 
@@ -160,8 +160,8 @@ def run(ctx: vlib.Ctx):
             for k, (it, outs, _obs) in enumerate(rec["steps"]):
                 if it[0] != "Exec" or P.reads_hidden(it[1]):
                     continue
-                ref = reference(it[1], seq.get("logd", 0))
-                if ref is not None and ref != outs:
+                ref = reference(it[1], seq.get("logd", 0), seq.get("fsiso", False))
+                if ref is not None and ref != outs and outs != [("Exc", "E_no_result")]:
                     j = next((i for i in range(min(len(ref), len(outs))) if ref[i] != outs[i]), min(len(ref), len(outs)) - 1)
                     order_viol.append((si, k, f"order:{it[1][j][0]}",
                                        f"test {[P.code_of(a) for a in it[1]]} gives {outs} after {k} earlier items but {ref} when executed first"))
@@ -186,7 +186,7 @@ def run(ctx: vlib.Ctx):
                     if sig.startswith("order:"):
                         for it, outs, _o in r2["steps"]:
                             if it[0] == "Exec" and not P.reads_hidden(it[1]):
-                                ref = reference(it[1], s2.get("logd", 0))
+                                ref = reference(it[1], s2.get("logd", 0), s2.get("fsiso", False))
                                 if ref is not None and ref != outs:
                                     return True
                         return False
@@ -203,6 +203,7 @@ def run(ctx: vlib.Ctx):
             continue
         ctx.case_seen(_json(seq), nontrivial=any(it[0] == "Exec" for it in seq["items"]))
         ctx.count("streams:" + ("custom" if seq.get("custom_out") or seq.get("custom_err") else "std"))
+        ctx.count("filesystem_isolation:" + ("on" if seq.get("fsiso") else "off"))
         for it, outs, _o in rec["steps"]:
             if it[0] == "PynDraw":
                 ctx.count("item:PynDraw")
